@@ -3,6 +3,10 @@
 Attribute values of the spec are small integers decoded into real values (points, ice models, steps,
 angles).  After every Read the values of the property group read from the mutated real object are
 compared with those of a freshly constructed object that has the current attribute values.
+
+A second real object (`eager`) receives the same operations but has *every* property group read and compared after
+*every* step: its caches are always filled when the next mutation arrives, which is the situation in which a forgotten
+invalidation shows -- an edge cover of the spec graph does not guarantee that order for the lazily read object.
 """
 import numpy as np
 from pyrex.ice_model import AntarcticIce, GreenlandIce, UniformIce
@@ -71,8 +75,8 @@ def path_obs(p, group):
 
 
 class LazyDriver:
-    def __init__(self, kind='specialized', target='tracer'):
-        self.kind, self.target = kind, target
+    def __init__(self, kind='specialized', target='tracer', eager=True):
+        self.kind, self.target, self.use_eager = kind, target, eager
         self.reads = 0
 
     def stats(self):
@@ -82,6 +86,7 @@ class LazyDriver:
 
     def cleanup(self):
         self.obj = None
+        self.eager = None
 
     def make(self, attrs):
         if self.target == 'tracer':
@@ -95,10 +100,43 @@ class LazyDriver:
 
     def reset(self, st):
         self.obj = self.make(st['attrs'])
+        self.eager = self.make(st['attrs']) if self.use_eager else None
+        if self.use_eager:
+            self.check_eager(st, 'construction')
+
+    def apply(self, obj, last):
+        if last['op'] == 'Assign':
+            setattr(obj, last['a'], decode(self.kind, last['a'], last['v']))
+        elif last['op'] == 'AugAssign':
+            if last['a'] == 'from_point':
+                obj.from_point += DELTA
+            else:
+                obj.to_point += DELTA
+
+    def check_eager(self, st, after):
+        f = tracer_obs if self.target == 'tracer' else path_obs
+        fresh = self.make(st['attrs'])
+        for group in (('scalars', 'solutions') if self.target == 'tracer' else ('tof', 'geometry')):
+            res = []
+            for o in (self.eager, fresh):
+                try:
+                    res.append((f(o, group), None))
+                except Exception as ex:
+                    res.append((None, type(ex).__name__))
+            (got, gex), (want, wex) = res
+            self.reads += 1
+            if gex != wex:
+                raise Divergence('%s.%s of the eagerly read object after %s, attributes %s' % (self.kind, group, after, dict(st['attrs'])), wex or want, gex or got)
+            if got is not None and (len(got) != len(want) or not np.allclose(got, want, rtol=1e-9, atol=1e-12, equal_nan=True)):
+                raise Divergence('%s %s (%s group) of the eagerly read object after %s vs fresh object with attributes %s' % (
+                    self.kind, self.target, group, after, dict(st['attrs'])), want, got)
 
     def step(self, label, st):
         last = st['last']
         op = last['op']
+        if op in ('Assign', 'AugAssign') and self.use_eager:
+            self.apply(self.eager, last)
+            self.check_eager(st, '%s of %s' % (op, last['a']))
         if op == 'Assign':
             setattr(self.obj, last['a'], decode(self.kind, last['a'], last['v']))
         elif op == 'AugAssign':
